@@ -642,8 +642,14 @@ def select__index_of(self: XPathFunction, context: ta.ContextType = None) -> Ite
     else:
         collation = self.get_argument(context, 2, required=True, cls=str)
 
+    # Values of type xs:untypedAtomic are compared as if they were of type xs:string
+    if isinstance(value, UntypedAtomic):
+        value = str(value.value)
+
     with CollationManager(collation, self) as manager:
         for pos, result in enumerate(self[0].atomization(context), start=1):
+            if isinstance(result, UntypedAtomic):
+                result = str(result.value)
             if manager.eq(result, value):
                 yield pos
 
